@@ -434,7 +434,33 @@ func (e *Exec) slice(ins *ssa.Slice, x, lo, hi, max Value) Value {
 	panic(fmt.Sprintf("slice %T", x))
 }
 
+// unhashable: a key holding (in an interface) a slice, map or func makes the runtime panic
+func unhashable(v Value) bool {
+	switch v := v.(type) {
+	case Slice, *Map, *Closure, *ssa.Function, *BoundMethod, *NativeFn, NilFunc:
+		return true
+	case Iface:
+		return v.t != nil && unhashable(v.v)
+	case Struct:
+		for _, f := range v {
+			if unhashable(f) {
+				return true
+			}
+		}
+	case Array:
+		for _, f := range v {
+			if unhashable(f) {
+				return true
+			}
+		}
+	}
+	return false
+}
+
 func (e *Exec) mapFind(m *Map, k Value) *mapEntry {
+	if unhashable(k) {
+		e.gopanic("runtime error: hash of unhashable type")
+	}
 	if m == nil {
 		return nil
 	}
